@@ -26,11 +26,13 @@ var (
 	fScratch = flag.String("verif.scratch", "", "unused")
 	fScript  = flag.String("verif.script", "", "scripted finding to run")
 	fDump    = flag.Int("verif.dump", -1, "dump the trace of this run index and exit")
+	fDeep    = flag.Bool("verif.deep", false, "thorough tier: wider scenario space (up to 13 validators, more heights)")
 )
 
 func TestVerif(t *testing.T) {
 	SetCryptoReseed(func(seed uint64) { cryptotest.SetGlobalRandom(t, seed) })
 	pre := seedCrypto
+	Deep = *fDeep
 	if *fReplay != "" {
 		ok, msg, rr := Replay(*fReplay, pre)
 		if rr != nil {
